@@ -6,6 +6,19 @@ records the observation of every step; the driver runs the same history through 
 heap-of-iterators model and through the Lean immutable-list specification and returns both
 observation lists.  Comparison is step by step and stops at the first difference (after
 an exception the states may legitimately differ).
+
+Entry `history`: method calls only.  Entry `hist`: the caller's side as well — every container a
+call hands out and every list the caller builds is an object of the caller (addressed by its
+order of creation): `lit` builds one, `mut` changes one in place, a source {"k": "ref", "j": j}
+passes one to Stream() / append() / thub().  The Lean side keeps these containers in a second heap
+(values); the Python side keeps the objects themselves and asserts after every step that a
+returned container is a new object of the requested type ("alias", "ctype"), that no container of
+the caller changed behind his back ("dirty": those addressed by index, "dirtyarg": literal
+arguments), and at the end that every container holds what the list model says.  Operand flavours
+(c03_flavours.py): iterable flavour of a source ("as"), constructor of take / peek ("ctor"), way of
+draining ("via"), flavour of the element function ("fl"), tagged item representations ("tagged"),
+Stream subclass instances with their own __iter__ ("raw", "altstream", "restream"), sources of
+several arguments with an existing object among them ("mixed").
 """
 import gc, itertools, json, operator, resource, signal, sys, warnings
 import common
@@ -1197,9 +1210,9 @@ def _peek_loop(rng, n):
 def generate(rng, tier, scale=1):
     cases = []
     if tier == "quick":
-        nrand, maxlen, depth, nhist, nlong = 3500 * scale, 14, 3, 3500 * scale, 8 * scale
+        nrand, maxlen, depth, nhist, nlong = 4000 * scale, 14, 3, 4500 * scale, 10 * scale
     else:
-        nrand, maxlen, depth, nhist, nlong = 35000 * scale, 40, 4, 35000 * scale, 40 * scale
+        nrand, maxlen, depth, nhist, nlong = 40000 * scale, 40, 4, 40000 * scale, 40 * scale
     if scale == 1:
         cases.extend(_exhaustive(depth))
         cases.extend(_owner_cases())
